@@ -216,8 +216,22 @@ class MNet(LeafBase):
       s.out @= trunc(s.call(zext(s.in_, 8)), 4) + 1
 
 
+class Plain(LeafBase):
+  """no method port anywhere below it (the parent-level method calls need one, so this class only fits position m0, which no
+  ancestor calls): replacing it is the one case in which the removed subtree owns no method port at all"""
+  def construct(s):
+    s.in_ = InPort(Bits4)
+    s.out = OutPort(Bits4)
+    add_lb(s)
+
+    @update
+    def up_plain():
+      s.out @= s.in_ + 1
+
+
 for _c in (Pass, Reg, Nest, Con, Lam, Sl, CL, MNet): add_methods(_c)
-CATALOG = {"Pass": Pass, "Reg": Reg, "Nest": Nest, "Con": Con, "Lam": Lam, "Sl": Sl, "CL": CL, "MNet": MNet}
+CATALOG = {"Pass": Pass, "Reg": Reg, "Nest": Nest, "Con": Con, "Lam": Lam, "Sl": Sl, "CL": CL, "MNet": MNet, "Plain": Plain}
+ONLY_AT = {"Plain": ("m0",)}
 
 
 class Mid(Component):
